@@ -48,6 +48,9 @@ type Scenario struct {
 	Unit     int     `json:"unit,omitempty"` // nanoseconds per time unit (tick, interval, freq)
 	Script   []Move  `json:"script"`
 	NoFinish bool    `json:"nofinish,omitempty"` // C06: after the script nobody receives any more: cancel + close inputs only
+	Par      int     `json:"par,omitempty"`      // fork stages: number of workers
+	Gated    bool    `json:"gated,omitempty"`    // fork stages: user calls block on gates opened by release moves
+	Monoid   int     `json:"monoid,omitempty"`   // fork.Fold: commutative monoid family member
 	T        Timing  `json:"t,omitzero"`         // C11/C13/C08 only
 }
 
@@ -98,13 +101,17 @@ type env struct {
 
 	ports []*port
 
-	mu      sync.Mutex
-	calls   map[int]int // user function calls per argument
-	callLog []int
-	callAt  []time.Duration
-	errs    map[int]*stageErr
-	sentLog []int // values the harness arrows managed to send (FMap)
-	aborted bool  // an arrow abandoned an element because it saw the cancel
+	mu           sync.Mutex
+	calls        map[int]int // user function calls per argument
+	callLog      []int
+	callAt       []time.Duration
+	errs         map[int]*stageErr
+	gated        bool
+	pendingCalls []*gcall // user calls blocked on their gate, in arrival order
+	maxInflight  int
+	reordered    bool  // some release move opened a gate other than the oldest
+	sentLog      []int // values the harness arrows managed to send (FMap)
+	aborted      bool  // an arrow abandoned an element because it saw the cancel
 }
 
 func (e *env) errFor(v int) error {
@@ -348,6 +355,16 @@ func (e *env) do(m Move) string {
 	case "cancel":
 		e.cancelled = true
 		e.cancel()
+		e.openGates()
+	case "release":
+		e.release(m.I)
+	case "releaseAll":
+		e.mu.Lock()
+		n := len(e.pendingCalls)
+		e.mu.Unlock()
+		for k := 0; k < n; k++ {
+			e.release(0)
+		}
 	case "tick":
 		time.Sleep(time.Duration(max(m.M, 1)) * e.sc.unit())
 	case "batch":
@@ -459,6 +476,8 @@ type Result struct {
 	Backpressure  bool // some quiescent point had a producer blocked or an output buffer full
 	CancelBlocked bool // the cancel happened while the stage was blocked on a send
 	Received      int
+	MaxInflight   int
+	Reordered     bool
 }
 
 // Exec runs the scenario in a fresh bubble.  A bubble that cannot end (goroutines of the stage
@@ -476,4 +495,61 @@ func Exec(t *testing.T, sc *Scenario) Result {
 		}
 	}
 	return res
+}
+
+// ---- gates (engine E4): the completion order of in-flight user calls is part of the script
+
+type gcall struct {
+	arg  int
+	gate chan struct{}
+}
+
+// gate blocks the calling user function until a release move (or the end of the scenario) lets it go.
+func (e *env) gate(x int) {
+	e.mu.Lock()
+	if !e.gated {
+		e.mu.Unlock()
+		return
+	}
+	c := &gcall{arg: x, gate: make(chan struct{})}
+	e.pendingCalls = append(e.pendingCalls, c)
+	if len(e.pendingCalls) > e.maxInflight {
+		e.maxInflight = len(e.pendingCalls)
+	}
+	e.mu.Unlock()
+	select {
+	case <-c.gate:
+	case <-e.envStop:
+	}
+}
+
+func (e *env) release(j int) {
+	e.mu.Lock()
+	defer e.mu.Unlock()
+	if len(e.pendingCalls) == 0 {
+		return
+	}
+	j = j % len(e.pendingCalls)
+	if j != 0 {
+		e.reordered = true
+	}
+	close(e.pendingCalls[j].gate)
+	e.pendingCalls = append(e.pendingCalls[:j], e.pendingCalls[j+1:]...)
+}
+
+// openGates releases every blocked call and lets future calls pass.
+func (e *env) openGates() {
+	e.mu.Lock()
+	defer e.mu.Unlock()
+	e.gated = false
+	for _, c := range e.pendingCalls {
+		close(c.gate)
+	}
+	e.pendingCalls = nil
+}
+
+func (e *env) inflight() int {
+	e.mu.Lock()
+	defer e.mu.Unlock()
+	return len(e.pendingCalls)
 }
